@@ -3,51 +3,67 @@ From Coq Require Import String.
 From TS Require Import Model.Str Model.Outcome Model.Unicode Model.Syntax Model.Attrs Model.Rename Model.Types Model.Parse.
 From TS Require Import Spec.TargetOsRule Spec.C03Spec Spec.C07Spec.
 From TS Require Proofs.FrontItems Proofs.C07.
-Definition refuted_at (it : item) (site : string) : Prop :=
-  Proofs.C07.is_leaf_item it = true /\ leaf_safe uc_exec (fun _ => None) [] it = false /\
-  Proofs.FrontItems.parse_leaf uc_exec (fun _ => None) [] it = Panic site.
 From TS Require Props.C07.
 
-Goal forall t : ty, ty_safe t = true -> is_panic (parse_ty t) = false.
-Proof. exact Props.C07.C07_type_parser_panic_free. Qed.
-Print Assumptions Props.C07.C07_type_parser_panic_free.
+Goal forall t : ty, is_panic (parse_ty t) = false.
+Proof. exact Props.C07.C07_type_parser_never_panics. Qed.
+Print Assumptions Props.C07.C07_type_parser_never_panics.
+Goal forall t : ty, ty_complete t = false -> exists e, parse_ty t = Err e.
+Proof. exact Props.C07.C07_incomplete_type_is_error. Qed.
+Print Assumptions Props.C07.C07_incomplete_type_is_error.
 Goal forall (uc : unicode) (rule : option str) (ident : str),
-    rename_safe rule ident = true -> is_panic (rename_all_to_case uc ident rule) = false.
-Proof. exact Props.C07.C07_rename_panic_free. Qed.
-Print Assumptions Props.C07.C07_rename_panic_free.
+    is_panic (rename_all_to_case uc ident rule) = false.
+Proof. exact Props.C07.C07_rename_never_panics. Qed.
+Print Assumptions Props.C07.C07_rename_never_panics.
 Goal forall s : str,
-    is_panic (to_camel_case s) = negb (match first_significant s with Some c => N.ltb c 128%N | None => false end).
-Proof. exact Props.C07.C07_camel_case_panics_exactly. Qed.
-Print Assumptions Props.C07.C07_camel_case_panics_exactly.
-Goal forall (uc : unicode) (attrs : list attr),
-    decorators_safe uc attrs = true -> is_panic (get_field_decorators uc attrs) = false.
-Proof. exact Props.C07.C07_decorators_panic_free. Qed.
-Print Assumptions Props.C07.C07_decorators_panic_free.
+    to_camel_case s = Ok (match to_pascal_case s with [] => [] | c :: r => alower c :: r end).
+Proof. exact Props.C07.C07_camel_case_value. Qed.
+Print Assumptions Props.C07.C07_camel_case_value.
+Goal forall (uc : unicode) (attrs : list attr), is_panic (get_field_decorators uc attrs) = false.
+Proof. exact Props.C07.C07_decorators_never_panic. Qed.
+Print Assumptions Props.C07.C07_decorators_never_panic.
+Goal forall (uc : unicode) (tstr : str -> option ty) (T : list str) (it : item),
+    Proofs.C07.is_leaf_item it = true ->
+    is_panic (Proofs.FrontItems.parse_leaf uc tstr T it) = false.
+Proof. exact Props.C07.C07_leaf_never_panics. Qed.
+Print Assumptions Props.C07.C07_leaf_never_panics.
+Goal forall (uc : unicode) (tstr : str -> option ty) (T : list str) (f : file),
+    is_panic (parse_file uc tstr T f) = false.
+Proof. exact Props.C07.C07_front_end_never_panics_partial. Qed.
+Print Assumptions Props.C07.C07_front_end_never_panics_partial.
+Goal forall (uc : unicode) (tstr : str -> option ty) (T : list str) (f : file),
+    exists r, parse_file uc tstr T f = Ok r.
+Proof. exact Props.C07.C07_front_end_total_partial. Qed.
+Print Assumptions Props.C07.C07_front_end_total_partial.
 Goal forall (uc : unicode) (tstr : str -> option ty) (T : list str),
     (forall attrs, is_skipped T attrs = skipped7 T attrs) ->
   forall it : item,
-    Proofs.C07.is_leaf_item it = true -> leaf_safe uc tstr T it = true ->
-    is_panic (Proofs.FrontItems.parse_leaf uc tstr T it) = false.
-Proof. exact Props.C07.C07_leaf_panic_free. Qed.
-Print Assumptions Props.C07.C07_leaf_panic_free.
+    Proofs.C07.is_leaf_item it = true -> leaf_complete uc tstr T it = false ->
+    exists e, Proofs.FrontItems.parse_leaf uc tstr T it = Err e.
+Proof. exact Props.C07.C07_incomplete_leaf_is_error. Qed.
+Print Assumptions Props.C07.C07_incomplete_leaf_is_error.
 Goal forall (uc : unicode) (tstr : str -> option ty) (it : item),
-    Proofs.C07.is_leaf_item it = true -> leaf_safe uc tstr [] it = true ->
-    is_panic (Proofs.FrontItems.parse_leaf uc tstr [] it) = false.
-Proof. exact Props.C07.C07_leaf_panic_free_no_target. Qed.
-Print Assumptions Props.C07.C07_leaf_panic_free_no_target.
+    Proofs.C07.is_leaf_item it = true -> leaf_complete uc tstr [] it = false ->
+    exists e, Proofs.FrontItems.parse_leaf uc tstr [] it = Err e.
+Proof. exact Props.C07.C07_incomplete_leaf_is_error_no_target. Qed.
+Print Assumptions Props.C07.C07_incomplete_leaf_is_error_no_target.
 Goal forall (uc : unicode) (tstr : str -> option ty) (T : list str),
     (forall attrs, accepts T attrs = os_rule attrs T) ->
   forall f : file,
-    front_safe uc tstr T f = true -> is_panic (parse_file uc tstr T f) = false.
-Proof. exact Props.C07.C07_front_end_panic_free_partial. Qed.
-Print Assumptions Props.C07.C07_front_end_panic_free_partial.
+    exists r, parse_file uc tstr T f = Ok r /\
+              (front_incomplete_leaves uc tstr T f <=
+               match r with Some pd => List.length (p_errors pd) | None => 0 end)%nat.
+Proof. exact Props.C07.C07_incomplete_file_is_diagnosed. Qed.
+Print Assumptions Props.C07.C07_incomplete_file_is_diagnosed.
 Goal forall (T : list str) (attrs : list attr), cfg_parsable attrs = true -> accepts T attrs = os_rule attrs T.
 Proof. exact Props.C07.C07_target_os_hypothesis_when_cfg_parses. Qed.
 Print Assumptions Props.C07.C07_target_os_hypothesis_when_cfg_parses.
 Goal forall (uc : unicode) (tstr : str -> option ty) (f : file),
-    front_safe uc tstr [] f = true -> is_panic (parse_file uc tstr [] f) = false.
-Proof. exact Props.C07.C07_front_end_panic_free_no_target_partial. Qed.
-Print Assumptions Props.C07.C07_front_end_panic_free_no_target_partial.
+    exists r, parse_file uc tstr [] f = Ok r /\
+              (front_incomplete_leaves uc tstr [] f <=
+               match r with Some pd => List.length (p_errors pd) | None => 0 end)%nat.
+Proof. exact Props.C07.C07_incomplete_file_is_diagnosed_no_target. Qed.
+Print Assumptions Props.C07.C07_incomplete_file_is_diagnosed_no_target.
 Goal forall (uc : unicode) (tstr : str -> option ty) (T : list str),
     (forall attrs, accepts T attrs = os_rule attrs T) ->
   forall (l : list item) (pd pd' : parsed),
@@ -56,45 +72,51 @@ Goal forall (uc : unicode) (tstr : str -> option ty) (T : list str),
     (Proofs.FrontItems.count_items pd + List.length (filter (expected_leaf T) (leaves_of l)))%nat.
 Proof. exact Props.C07.C07_every_expected_item_accounted. Qed.
 Print Assumptions Props.C07.C07_every_expected_item_accounted.
-Goal refuted_at (IStruct [Proofs.C07.a_ts] (lit "S") [] (FUnnamed [])) "parser.rs:287".
-Proof. exact Props.C07.C07_parser_287_refuted. Qed.
-Print Assumptions Props.C07.C07_parser_287_refuted.
-Goal refuted_at (IEnum [Proofs.C07.a_ts; Proofs.C07.a_tagc] (lit "E") []
-                    [{| v_attrs := []; v_ident := lit "V"; v_fields := FUnnamed [] |}]) "parser.rs:445".
-Proof. exact Props.C07.C07_parser_445_refuted. Qed.
-Print Assumptions Props.C07.C07_parser_445_refuted.
-Goal refuted_at (Proofs.C07.st1 [] (Proofs.C07.fld
-                [{| a_inner := false;
-                    a_meta := MList [lit "typeshare"] (Some [MList [lit "foo"] (Some [MPath [lit "bar"]]) (Some [(lit "bar", None)])]) None |}]
-                (lit "a") Proofs.C07.t_u8)) "parser.rs:737".
-Proof. exact Props.C07.C07_parser_737_refuted. Qed.
-Print Assumptions Props.C07.C07_parser_737_refuted.
-Goal refuted_at (Proofs.C07.st1 [] (Proofs.C07.fld [] (lit "a") (TPath [] (lit "Vec") []))) "rust_types.rs:366".
-Proof. exact Props.C07.C07_rust_types_366_refuted. Qed.
-Print Assumptions Props.C07.C07_rust_types_366_refuted.
-Goal refuted_at (Proofs.C07.st1 [] (Proofs.C07.fld [] (lit "a") (TPath [] (lit "Option") []))) "rust_types.rs:369".
-Proof. exact Props.C07.C07_rust_types_369_refuted. Qed.
-Print Assumptions Props.C07.C07_rust_types_369_refuted.
-Goal refuted_at (Proofs.C07.st1 [] (Proofs.C07.fld [] (lit "a") (TPath [] (lit "HashMap") []))) "rust_types.rs:374".
-Proof. exact Props.C07.C07_rust_types_374_refuted. Qed.
-Print Assumptions Props.C07.C07_rust_types_374_refuted.
-Goal refuted_at (Proofs.C07.st1 [] (Proofs.C07.fld [] (lit "a") (TPath [] (lit "HashMap") [Some (TPath [] (lit "String") [])])))
-             "rust_types.rs:375".
-Proof. exact Props.C07.C07_rust_types_375_refuted. Qed.
-Print Assumptions Props.C07.C07_rust_types_375_refuted.
-Goal refuted_at (Proofs.C07.st1 [] (Proofs.C07.fld [] (lit "a") (TPath [] (lit "Cow") [None]))) "rust_types.rs:383".
-Proof. exact Props.C07.C07_rust_types_383_refuted. Qed.
-Print Assumptions Props.C07.C07_rust_types_383_refuted.
-Goal refuted_at (Proofs.C07.st1 [Proofs.C07.a_camel] (Proofs.C07.fld [] (lit "__") Proofs.C07.t_u8)) "rename.rs:22".
-Proof. exact Props.C07.C07_rename_22_underscores_refuted. Qed.
-Print Assumptions Props.C07.C07_rename_22_underscores_refuted.
-Goal refuted_at (Proofs.C07.st1 [Proofs.C07.a_camel] (Proofs.C07.fld [] (233%N :: lit "toile") Proofs.C07.t_u8)) "rename.rs:22".
-Proof. exact Props.C07.C07_rename_22_nonascii_refuted. Qed.
-Print Assumptions Props.C07.C07_rename_22_nonascii_refuted.
-Goal front_safe uc_exec Proofs.C07.no_tstr [] Proofs.C07.nonvacuous_file = true /\
-  List.length (expected_leaves [] Proofs.C07.nonvacuous_file) = 5%nat /\
+Goal Proofs.C07.diagnosed (IStruct [Proofs.C07.a_ts] (lit "S") [] (FUnnamed [])) (EUnsupportedTypeP (lit "S()")).
+Proof. exact Props.C07.C07_parser_287_fixed. Qed.
+Print Assumptions Props.C07.C07_parser_287_fixed.
+Goal Proofs.C07.diagnosed (IEnum [Proofs.C07.a_ts; Proofs.C07.a_tagc] (lit "E") []
+                          [{| v_attrs := []; v_ident := lit "V"; v_fields := FUnnamed [] |}]) (EUnsupportedTypeP (lit "V()")).
+Proof. exact Props.C07.C07_parser_445_fixed. Qed.
+Print Assumptions Props.C07.C07_parser_445_fixed.
+Goal get_field_decorators uc_exec [Proofs.C07.a_foo_bar] = Ok [] /\
+  is_ok (Proofs.FrontItems.parse_leaf uc_exec Proofs.C07.no_tstr []
+           (Proofs.C07.st1 [] (Proofs.C07.fld [Proofs.C07.a_foo_bar] (lit "a") Proofs.C07.t_u8))) = true /\
+  Proofs.FrontItems.parse_leaf uc_exec Proofs.C07.no_tstr [] (Proofs.C07.st1 [] (Proofs.C07.fld [Proofs.C07.a_foo_bar] (lit "a") Proofs.C07.t_u8)) =
+  Proofs.FrontItems.parse_leaf uc_exec Proofs.C07.no_tstr [] (Proofs.C07.st1 [] (Proofs.C07.fld [] (lit "a") Proofs.C07.t_u8)).
+Proof. exact Props.C07.C07_parser_737_fixed. Qed.
+Print Assumptions Props.C07.C07_parser_737_fixed.
+Goal Proofs.C07.diagnosed (Proofs.C07.st1 [] (Proofs.C07.fld [] (lit "a") (TPath [] (lit "Vec") []))) (EUnsupportedType [lit "Vec"]).
+Proof. exact Props.C07.C07_rust_types_366_fixed. Qed.
+Print Assumptions Props.C07.C07_rust_types_366_fixed.
+Goal Proofs.C07.diagnosed (Proofs.C07.st1 [] (Proofs.C07.fld [] (lit "a") (TPath [] (lit "Option") []))) (EUnsupportedType [lit "Option"]).
+Proof. exact Props.C07.C07_rust_types_369_fixed. Qed.
+Print Assumptions Props.C07.C07_rust_types_369_fixed.
+Goal Proofs.C07.diagnosed (Proofs.C07.st1 [] (Proofs.C07.fld [] (lit "a") (TPath [] (lit "HashMap") []))) (EUnsupportedType [lit "HashMap"]).
+Proof. exact Props.C07.C07_rust_types_374_fixed. Qed.
+Print Assumptions Props.C07.C07_rust_types_374_fixed.
+Goal Proofs.C07.diagnosed (Proofs.C07.st1 [] (Proofs.C07.fld [] (lit "a") (TPath [] (lit "HashMap") [Some (TPath [] (lit "String") [])])))
+                       (EUnsupportedType [lit "HashMap"]).
+Proof. exact Props.C07.C07_rust_types_375_fixed. Qed.
+Print Assumptions Props.C07.C07_rust_types_375_fixed.
+Goal Proofs.C07.diagnosed (Proofs.C07.st1 [] (Proofs.C07.fld [] (lit "a") (TPath [] (lit "Cow") [None]))) (EUnsupportedType [lit "Cow"]).
+Proof. exact Props.C07.C07_rust_types_383_fixed. Qed.
+Print Assumptions Props.C07.C07_rust_types_383_fixed.
+Goal Proofs.C07.field_names_of (Proofs.FrontItems.parse_leaf uc_exec Proofs.C07.no_tstr []
+     (Proofs.C07.st1 [Proofs.C07.a_camel] (Proofs.C07.fld [] (lit "__") Proofs.C07.t_u8))) = Some [[]].
+Proof. exact Props.C07.C07_rename_22_underscores_fixed. Qed.
+Print Assumptions Props.C07.C07_rename_22_underscores_fixed.
+Goal Proofs.C07.field_names_of (Proofs.FrontItems.parse_leaf uc_exec Proofs.C07.no_tstr []
+     (Proofs.C07.st1 [Proofs.C07.a_camel] (Proofs.C07.fld [] (233%N :: lit "toile") Proofs.C07.t_u8))) = Some [233%N :: lit "toile"] /\
+  Proofs.C07.field_names_of (Proofs.FrontItems.parse_leaf uc_exec Proofs.C07.no_tstr []
+     (Proofs.C07.st1 [Proofs.C07.a_camel] (Proofs.C07.fld [] (201%N :: lit "toile_du_nord") Proofs.C07.t_u8))) = Some [201%N :: lit "toileDuNord"].
+Proof. exact Props.C07.C07_rename_22_nonascii_fixed. Qed.
+Print Assumptions Props.C07.C07_rename_22_nonascii_fixed.
+Goal List.length (expected_leaves [] Proofs.C07.nonvacuous_file) = 8%nat /\
+  front_incomplete_leaves uc_exec Proofs.C07.no_tstr [] Proofs.C07.nonvacuous_file = 3%nat /\
   match parse_file uc_exec Proofs.C07.no_tstr [] Proofs.C07.nonvacuous_file with
-  | Ok (Some pd) => Proofs.FrontItems.count_items pd = 5%nat /\ p_errors pd = []
+  | Ok (Some pd) => Proofs.FrontItems.count_items pd = 8%nat /\
+                    p_errors pd = [EUnsupportedTypeP (lit "Empty()"); EUnsupportedType [lit "Box"]; EUnsupportedType [lit "HashMap"]]
   | _ => False
   end.
 Proof. exact Props.C07.C07_nonvacuous_witness. Qed.
